@@ -466,7 +466,8 @@ func init() {
 			return err
 		}
 		kinds := map[string]int{}
-		var tokCases, rcCases, msgCases, archCases, carCases []string
+		var tokCases, rcCases, msgCases, archCases, carCases, signCases []string
+		var signDids [][][]byte
 		var samples []any
 		for gi, g := range golden {
 			kinds[g.Kind]++
@@ -543,6 +544,12 @@ func init() {
 				ut, err := utokenCoqFromBytes(root)
 				if err == nil {
 					tokCases = append(tokCases, fmt.Sprintf("(%d, %s, %s)", gi, ut, hx(root)))
+					// the model's signing payload (DagJson.v) must be the RECORDED signing payload
+					if dd, derr := delegation.Extract(ab); derr == nil {
+						alg, _ := signature.CodeName(dd.Signature().Code())
+						signCases = append(signCases, fmt.Sprintf("(%d, %s, %s, %s)", gi, hxs(alg), ut, coqOptBytes([]byte(g.Payload), true)))
+						signDids = append(signDids, [][]byte{dd.Issuer().DID().Bytes(), dd.Audience().DID().Bytes()})
+					}
 				}
 				if roots, blks, err := carDecodeBytes(ab); err == nil {
 					var rs, bs []string
@@ -680,6 +687,9 @@ func init() {
 		if err := writeCases("cases_C18_arch_00.v", "N * bstr * bstr", "check_archives", archCases, ""); err != nil {
 			return err
 		}
+		if err := writeSignShards(o.out, "C18", signCases, signDids, 2); err != nil {
+			return err
+		}
 		// CAR framing of the recorded archives (Car.car_encode reproduces the bytes)
 		{
 			var sb strings.Builder
@@ -695,7 +705,7 @@ func init() {
 		sum := sha256.Sum256(cb)
 		return writeJSON(o.out, "stats.json", map[string]any{"programs": len(golden), "by_kind": kinds, "differences": diffs,
 			"corpus_sha256": hex.EncodeToString(sum[:]), "samples": samples,
-			"model_cases": map[string]int{"token_blocks": len(tokCases), "receipt_blocks": len(rcCases), "message_blocks": len(msgCases), "archive_variant_blocks": len(archCases), "archive_car_framings": len(carCases)}})
+			"model_cases": map[string]int{"token_blocks": len(tokCases), "receipt_blocks": len(rcCases), "message_blocks": len(msgCases), "archive_variant_blocks": len(archCases), "archive_car_framings": len(carCases), "signing_payloads": len(signCases)}})
 	}
 }
 
